@@ -73,20 +73,11 @@ def check(ctx):
         if not ctx.quick:
             # the weakened design: a 0-byte read taken for end of stream ends the Serve loop
             ctx.design("Lifecycle.tla", "Lifecycle_2_0_emptyquits.cfg", expect_fail="ServesWhileOpen")
-        wd = ctx.scratch.sub("lifecycle")
-        lt = os.path.join(wd, "life.ndjson")
-        sock_dgs = 0
-
-        def relife(ctx2, scenario, out):
-            core.run_harness(ctx2.need_harness(), ["lifecycle", "-seed", ctx2.seed, "-out", out], ctx2.scratch.sub("relife"), timeout=600)
-
-        core.run_harness(ctx.need_harness(), ["lifecycle", "-seed", ctx.seed, "-out", lt], wd, timeout=600)
+        # C01 on the REAL receive loops: byte strings of every length (0 included) over UDP, then a request that must be answered; bursts
+        from . import fam_life
+        lt, sockst = fam_life.sockets_job(ctx)
         lifecycle_lines = sum(1 for _ in open(lt))
-        sock_dgs = sum(1 for line in open(lt) if '"ev":"dgs"' in line)
-        if sock_dgs == 0:
-            raise Infra("the real-socket run delivered no datagram (no loopback sockets?)")
-        # C01 on the REAL receive loops: byte strings of every length (0 included) over UDP, then a request that must be answered
-        runner.run_job(ctx, runner.TraceJob("sockets", "LifecycleTrace", lt, {"Lens": core.tla_set(["C01"])}, boundary=lambda e: False, replay=relife, attempts=2))
+        sock_dgs = sockst["datagrams_over_real_sockets"]
         # everything else about Start / Serve / Wait / Close: drift detector
         ev, tr = ctx.events, ctx.traces_ok
         runner.run_job(ctx, runner.TraceJob("lifecycle", "LifecycleTrace", lt, {"Lens": core.tla_set(["LIFE"])}, boundary=lambda e: e.get("ev") == "lstart", drift=True))
@@ -118,6 +109,16 @@ def check(ctx):
                 "a 10 s watchdog that inspects goroutine stacks; liveness probes after every history; distinct_nontrivial = mutated datagrams. The byte axis is SAMPLED. "
                 "Plus the real receive loops (server.Start on loopback UDP sockets, no hooks): empty / 1-byte / truncated / junk / 60000-byte datagrams, each followed by a request that must be answered.")
     else:
+        # the real receive loops under a burst of clients (real sockets): each reply answers ITS request at ITS address
+        from . import fam_life
+        _, sockst = fam_life.sockets_job(ctx)
+        # the static lease file refreshed twice in quick succession (a big table, then a small one while the first reload is
+        # still parsing): the mapping that is served when everything has settled is the file's
+        from . import fam_file
+        ga = ["-mode", "gen2", "-count", 1 if ctx.quick else 3]
+        gouts = fam_file.run_parts(ctx, "gen2", [ga], 1)
+        runner.run_job(ctx, runner.TraceJob("gen2", "FileTrace", gouts[0], {"Lens": core.tla_set([ctx.prop])}, replay=fam_file._rerun(ga), boundary=lambda e: False,
+                                            meta={"rerun_args": ga, "family": "file"}))
         h = ctx.need_harness(True)
         rounds = 3 if ctx.quick else 25
         args = ["-mode", "conc", "-seed", ctx.seed, "-rounds", rounds]
@@ -185,5 +186,26 @@ def check(ctx):
 
 
 def replay(ctx, path):
+    """Server scenarios are re-produced by running the producing harness mode again (same seed) and validating its whole recording."""
     meta = json.load(open(os.path.join(path, "meta.json")))
-    raise Infra("server scenarios are re-run by ./check %s (job %s), not replayed from a file" % (ctx.prop, meta.get("job")))
+    job, seed = meta.get("job", ""), meta.get("seed", 1)
+    lens = {"Lens": core.tla_set([ctx.prop])}
+    if job in ("sockets", "lifecycle") or meta.get("family") == "lifecycle":
+        def relife(ctx2, scenario, out):
+            core.run_harness(ctx2.need_harness(), ["lifecycle", "-seed", seed, "-out", out], ctx2.scratch.sub("relife"), timeout=600)
+        j = runner.TraceJob("replay", "LifecycleTrace", None, lens, replay=relife, boundary=lambda e: False)
+    elif job == "gen2":
+        from . import fam_file
+        j = runner.TraceJob("replay", "FileTrace", None, lens, replay=fam_file._rerun(meta.get("rerun_args", ["-mode", "gen2", "-count", 1])), boundary=lambda e: False)
+    elif job == "chains":
+        j = runner.TraceJob("replay", "ServerTrace", None, lens, replay=_rerun(["-mode", "chains", "-seed", seed, "-level", 1, "-ndg", 40, "-par", max(4, core.NCPU - 2)]),
+                            boundary=lambda e: False)
+    elif job == "sched":
+        j = runner.TraceJob("replay", "ServerTrace", None, lens, replay=_rerun(["-mode", "sched"]), boundary=lambda e: False)
+    elif job.startswith("conc-"):
+        fam = job.split("-", 1)[1]
+        module = {"server": "ServerTrace", "range": "RangeTrace", "prefix": "PrefixTrace"}.get(fam, "ServerTrace")
+        j = runner.TraceJob("replay", module, None, lens, replay=_rerun(["-mode", "conc", "-seed", seed, "-rounds", 3], True, fam), boundary=lambda e: False)
+    else:
+        raise Infra("no replay recipe for job %s of %s" % (job, ctx.prop))
+    return runner.replay_dir(ctx, path, j)
